@@ -7,7 +7,7 @@
 From Coq Require Import List Arith ZArith Bool.
 Import ListNotations.
 From KV Require Import Model.Greedy Model.Kaisa Proofs.GreedyP Proofs.KaisaP.
-From KV Require Proofs.KaisaFloatP.
+From KV Require Proofs.KaisaFloatP Proofs.GreedyFunP.
 
 Theorem grid_of_world : forall W p k, 0 < k -> W = k * p ->
   kcols W k = kcols_pk p k /\ krows W k = krows_pk p k.
@@ -60,6 +60,19 @@ Theorem broadcast_flags : forall p k, 0 < p -> 0 < k ->
   (broadcast_gradients (k * p) k = true <-> 1 < p) /\ (broadcast_inverses k = true <-> 1 < k).
 Proof. exact broadcast_flags_l. Qed.
 
+(* the function KAISAAssignment computes (greedy over the columns, first-minimum tie-breaks) is accepted by the checker
+   for every grid with p, k > 0 and all layers with distinct factor names: the theorems above hold for it on every input *)
+Theorem kaisa_function_in_relation : forall p k work colocate, 0 < p -> 0 < k ->
+  (forall fs, In fs work -> fs <> [] /\ NoDup (map fst fs)) ->
+  greedy_ok_b work (kcols_pk p k) colocate (greedy work (kcols_pk p k) colocate) = true.
+Proof.
+  intros p k work colocate Hp Hk Hw. apply GreedyFunP.greedy_accepts_l.
+  - now apply cols_wf.
+  - unfold kcols_pk. destruct p; [inversion Hp|discriminate].
+  - intros g Hg. apply kcols_In in Hg as (i & _ & ->). unfold kcol. destruct k; [inversion Hk|discriminate].
+  - exact Hw.
+Qed.
+
 (* finite domain, bound in the statement: for every world size up to 4096 and
    every divisor k, the IEEE-double computation the constructor performs on the
    float k / W yields exactly k *)
@@ -97,5 +110,6 @@ Print Assumptions row_col_singleton.
 Print Assumptions inv_workers_in_one_column.
 Print Assumptions src_is_worker_in_my_row.
 Print Assumptions broadcast_flags.
+Print Assumptions kaisa_function_in_relation.
 Print Assumptions fraction_accepted_partial.
 Print Assumptions fraction_accepted.
